@@ -55,8 +55,9 @@ def build_graph_mapping_collection(from_ff, to_ff, mappings):
 
 def edge_matcher(graph1, graph2, node11, node12, node21, node22):
     """
-    Checks whether the resids for node11 and node12 in graph1 are the same, and
-    whether that's also true for node21 and node22 in graph2.
+    Checks whether node11 and node12 in graph1 are part of the same residue
+    (same chain, resid and insertion code), and whether that's also true for
+    node21 and node22 in graph2.
 
     Parameters
     ----------
@@ -75,12 +76,16 @@ def edge_matcher(graph1, graph2, node11, node12, node21, node22):
     -------
     bool
     """
+    def residue(node):
+        # Residues that share a number are told apart by their chain and
+        # insertion code (e.g. 52 and 52A).
+        return node.get('chain'), node.get('resid'), node.get('insertion_code')
     node11 = graph1.nodes[node11]
     node12 = graph1.nodes[node12]
     node21 = graph2.nodes[node21]
     node22 = graph2.nodes[node22]
-    return (node11.get('resid') == node12.get('resid')) ==\
-           (node21.get('resid') == node22.get('resid'))
+    return (residue(node11) == residue(node12)) ==\
+           (residue(node21) == residue(node22))
 
 
 def node_matcher(node1, node2):
